@@ -503,3 +503,21 @@ PROPS["C20"]["required_theorems"] += ["Crdt.C20.map_no_pending_residue", "Crdt.C
 PROPS["C16"]["explanation"] += " List: the driver prints the verdict predicted from the knowledge set (clock = per-actor newest known dot, C12.state_eq_spec) and the implementation is compared with it."
 PROPS["C17"]["profiles"] = PROPS["C17"]["profiles"] + [dict(name="map_vm", quick=900, thorough=15000)]
 PROPS["C17"]["explanation"] += " map_vm: Map::validate_merge under correct use and under deliberate reuse of one actor id at two replicas (keys present in both maps or in one), all three nestings, both directions – model/implementation correspondence."
+
+# --------------------------------------------------------------------------------------------
+# Map::reset_remove (C18): key-level simulation + value-level step + laws for every lawful value type / nesting depth
+# --------------------------------------------------------------------------------------------
+PROPS["C18"]["lean_targets"] = PROPS["C18"]["lean_targets"] + ["CrdtModel.Props.C18Map"]
+PROPS["C18"]["required_theorems"] += ["Crdt.C18." + t for t in [
+    "map_key_level", "map_clock", "map_entry", "map_value", "map_key_survives_iff", "map_get_rm_clock", "map_deferred_contexts", "map_deferred_members",
+    "map_empty", "map_compose", "map_idem", "map_commute", "map_wf", "map_own_clock", "map_lawful", "mvreg_lawful", "orswot_lawful",
+    "map_mvreg_compose", "map_orswot_compose", "map_map_mvreg_compose", "map_map_mvreg_empty", "map_reach_keys_wf", "map_reach_le"]] + [
+    "Crdt.CMap.resetRemove_sim", "Crdt.CMap.resetRemove_comp", "Crdt.CMap.rrLawful_map"]
+PROPS["C18"]["explanation"] = PROPS["C18"]["explanation"].replace(
+    "Map: the step applied to an entry is Entry{clock-c, V::reset_remove(c)} (C05.rm_step_value_partial); Map::reset_remove itself is covered by correspondence (map_corr RR commands).",
+    "Map (Props/C18Map.lean): Map::reset_remove IS Orswot::reset_remove on the Orswot of keys for every value type (resetRemove_sim), the value under a surviving key is V::reset_remove(c) of the old value, "
+    "and the laws (rr{}=id, composition=join, idempotence, commutation, invariant preserved) are proved as whole-state equalities for every value type whose own reset_remove is lawful – MVReg, Orswot, and Map over a lawful "
+    "value type (map_lawful), i.e. at every nesting depth; the key-level invariant holds in every derivable Map state (map_reach_keys_wf).")
+PROPS["C18"]["statement_coverage"] = ("full statement proved for VClock, GCounter, PNCounter, MVReg, Orswot and Map (any value type / nesting depth; the value-level laws under the structural invariant MapWF, "
+                                      "whose key-level half is proved for all derivable states and whose value-level half is the value type's own invariant)")
+MANIFEST_TEXT["C18"]["text"] = MANIFEST_TEXT["C18"]["text"].replace("(VClock, GCounter, PNCounter, MVReg, Orswot).", "(VClock, GCounter, PNCounter, MVReg, Orswot, and Map over any lawful value type, hence every nesting depth: Map::reset_remove is proved to be Orswot::reset_remove on the keys plus V::reset_remove on the values).")
